@@ -475,7 +475,7 @@ func main() {
 			tk, _ := json.Marshal(c.Tree)
 			distinct.Add(string(lk) + string(tk))
 		}
-		fmt.Fprintf(&v, "(%d, %s, %s)\n", i, coqTree(c.Tree, c.Leaves), coqObs(o))
+		fmt.Fprintf(&v, "(%d%%N, %s, %s)\n", i, coqTree(c.Tree, c.Leaves), coqObs(o))
 		if i%97 == 5 {
 			res.Sample(map[string]any{"case": c, "observed": o}, 4)
 		}
@@ -540,7 +540,7 @@ func main() {
 				if dec == nil || back.Name != n || back.ID != "idx" || back.Msg != "m" || back.Timeout != se.Timeout || back.Temporary != se.Temporary || back.Fault != se.Fault {
 					res.Fail("grpc-roundtrip", "error encoded into a gRPC status and decoded back differs", in)
 				}
-				fmt.Fprintf(&v, "(%d, %s, %d, %s, %s)\n", idx, valTerm, st, grpcCodeName(code), coqCore(back))
+				fmt.Fprintf(&v, "(%d%%N, %s, %d, %s, %s)\n", idx, valTerm, st, grpcCodeName(code), coqCore(back))
 				idx++
 				res.Count("status_rows")
 			}
@@ -562,7 +562,7 @@ func main() {
 		if st != 500 || !er.Fault || er.Name != "fault" {
 			res.Fail("plain-error-not-fault-500", fmt.Sprintf("plain error mapped to status %d name %q fault=%v", st, er.Name, er.Fault), m)
 		}
-		fmt.Fprintf(&v, "(%d, (VPlain %s \"\" 0), %d, %s, %s)\n", idx, vh.CoqString(m), st, grpcCodeName(status.Code(ge)), coqCore(back))
+		fmt.Fprintf(&v, "(%d%%N, (VPlain %s \"\" 0), %d, %s, %s)\n", idx, vh.CoqString(m), st, grpcCodeName(status.Code(ge)), coqCore(back))
 		idx++
 		res.Count("status_rows")
 	}
